@@ -434,10 +434,10 @@ def djs_reject(data, model, outmask=None, inmask=None, sigma=None,
     if grow > 0:
         rejects = newmask == 0
         if rejects.any():
-            irejects = rejects.nonzero()[0]
+            irejects = rejects.reshape(-1).nonzero()[0]
             for k in range(1, grow+1):
-                newmask[np.maximum(irejects - k, 0)] = 0
-                newmask[np.minimum(irejects + k, data.shape[0]-1)] = 0
+                newmask.flat[np.maximum(irejects - k, 0)] = 0
+                newmask.flat[np.minimum(irejects + k, data.size-1)] = 0
     if inmask is not None:
         newmask = newmask & inmask
     if sticky:
